@@ -45,3 +45,57 @@ class Tracer:
                 self.sim.log('preempt', key[0], key[1], n, hold)
                 self.sim.preempt(hold)
         return self.local_trace
+
+
+class LineCount:
+    """Trace function for one thread: at the k-th line event inside the library (optionally only in files whose name ends with
+    one of `files`, and only while cond() holds) run fire() (scheduler context, at once) if given, and park the thread for hold_ns.
+    targets: {k: (hold_ns, fire or None)}."""
+
+    def __init__(self, sim, targets=None, files=None, cond=None):
+        self.sim = sim
+        self.targets = dict(targets or {})
+        self.files = tuple(files) if files else None
+        self.cond = cond
+        self.n = 0
+        self.fired = 0
+        self.windows = []       # (from, to) the thread was held
+        self.sites = []
+        self.prefix = os.path.join(os.path.realpath(seams.REPO), 'j1939') + os.sep
+        self._ok = {}
+
+    def _mine(self, fn):
+        r = self._ok.get(fn)
+        if r is None:
+            rp = os.path.realpath(fn)
+            r = rp.startswith(self.prefix) and (self.files is None or rp.endswith(self.files))
+            self._ok[fn] = r
+        return r
+
+    def global_trace(self, frame, event, arg):
+        if event == 'call' and self.targets and self._mine(frame.f_code.co_filename):
+            return self.local_trace
+        return None
+
+    def local_trace(self, frame, event, arg):
+        if event == 'line' and self.targets and (self.cond is None or self.cond()):
+            self.n += 1
+            t = self.targets.pop(self.n, None)
+            if t is not None:
+                self.fired += 1
+                self.windows.append((self.sim.now, self.sim.now + t[0]))
+                self.sites.append((os.path.basename(frame.f_code.co_filename), frame.f_lineno))
+                self.sim.log('preempt', os.path.basename(frame.f_code.co_filename), frame.f_lineno, self.n, t[0])
+                if t[1] is not None:
+                    self.sim.after(0, t[1], 'op')
+                self.sim.preempt(t[0])
+        return self.local_trace
+
+
+def call_preempted(sim, fn, pre, name='app-call'):
+    """Run the application call fn(): directly when `pre` is None, else in a simulated thread that is parked for pre['hold_us']
+    at its pre['k']-th library source line (the job threads and reception run on meanwhile).  Returns (result, tracer or None)."""
+    if not pre:
+        return fn(), None
+    tr = LineCount(sim, {pre['k']: (pre['hold_us'] * 1000, None)})
+    return sim.call_in_thread(fn, name=name, trace=tr.global_trace), tr
